@@ -17,14 +17,17 @@
 EXTENDS WalletQueue
 
 CONSTANTS Birthday, MaxTop, MaxOps, MaxNotes,
-          Menu      \* 0: any choice of up to MaxNotes commitments as the wallet's notes; 1: the multi-pool menus below; 2: both
+          Menu,     \* 0: any choice of up to MaxNotes commitments as the wallet's notes; 1: the multi-pool menus below; 2: both
+          Hyg       \* TRUE: the queue-hygiene operations (prune_scan_queue_below, queue_rescans) are part of the interleavings
 
 VARIABLES Q,        \* the wallet's queue
           G,        \* ghost: the global fold of every insertion so far
           scanned, top, ends, wn, ops,
           last,     \* the last operation (for the action properties)
-          okB       \* Layer B agreed on the last operation
-vars == << Q, G, scanned, top, ends, wn, ops, last, okB >>
+          okB,      \* Layer B agreed on the last operation
+          hyg,      \* ghost: a hygiene operation has deliberately dropped coverage / Scanned marks
+          apart     \* ghost: some insertion lay apart from the stored queue (neither overlapping nor touching it)
+vars == << Q, G, scanned, top, ends, wn, ops, last, okB, hyg, apart >>
 
 \* the chain: commitments per pool, by position, with the height of their block (positions rise with heights)
 CmS == << 1, 3, 5, 8, 10 >>          \* Sapling positions 0..4: shard 0 ends at 3, shard 1 at 8
@@ -50,9 +53,10 @@ MaxScanned == IF scanned = {} THEN NoH ELSE SetMax(scanned)
 
 \* ---- replace_queue_entries, literally (Layer B)
 Touches(r, qs, qe) == ~(r[1] > qe \/ qs > r[2])
-RECURSIVE TreeFold(_, _, _)
-TreeFold(t, rs, i) == IF i > Len(rs) THEN t
-                      ELSE TreeFold(IF t.k = "N" THEN SQ!Leaf(rs[i]) ELSE SQ!TInsert(t, rs[i], FALSE), rs, i + 1)
+\* (the stored rows and the insertions all go in with the call's force flag; stored rows do not overlap one another)
+RECURSIVE TreeFold(_, _, _, _)
+TreeFold(t, rs, i, force) == IF i > Len(rs) THEN t
+                             ELSE TreeFold(IF t.k = "N" THEN SQ!Leaf(rs[i]) ELSE SQ!TInsert(t, rs[i], force), rs, i + 1, force)
 TableB(Qpre, ins) ==
     IF ins = << >> THEN { Vec(Qpre)[i] : i \in DOMAIN Vec(Qpre) }
     ELSE LET v  == Vec(Qpre)
@@ -60,7 +64,7 @@ TableB(Qpre, ins) ==
              qe == SeqMax(ins, 1, HLo - 1)
              tr == SelectSeq(v, LAMBDA r : Touches(r, qs, qe))          \* ORDER BY block_range_end: Vec is ascending
              rs == [i \in 1..Len(tr) |-> SQ!R(tr[i][1], tr[i][2], tr[i][3])] \o [i \in 1..Len(ins) |-> SQ!R(ins[i].s, ins[i].e, ins[i].p)]
-             t  == TreeFold(SQ!NoTree, rs, 1)
+             t  == TreeFold(SQ!NoTree, rs, 1, ins[1].f)
              nv == IF t.k = "X" THEN SQ!PanicJ ELSE SQ!IntoVec(t)
          IN  IF SQ!IsPanicJ(nv) THEN { << "panic" >> }
              ELSE { v[i] : i \in { i \in DOMAIN v : ~Touches(v[i], qs, qe) } } \cup { << nv[i].s, nv[i].e, nv[i].p >> : i \in DOMAIN nv }
@@ -79,17 +83,19 @@ Apply(ins, what) ==
     /\ G' = IF ins = << >> THEN G ELSE FoldIns(G.f, G.lo, G.hi, ins, 1)
     /\ okB' = (AgreesB(Q, ins, Replace(Q, ins)) /\ AgreesA(G.f, G.lo, G.hi, ins, 1))
     /\ last' = what
+    /\ hyg' = (hyg \/ what.k = "rescan")
+    /\ apart' = (apart \/ (ins # << >> /\ Q.lo < Q.hi /\ ~(Q.lo <= SeqMax(ins, 1, HLo - 1) /\ SeqMin(ins, 1, HHi + 1) <= Q.hi)))
 
 Init == /\ Q = Replace(EmptyQueue, IF A0 < Birthday THEN << Ins(A0, Birthday, Ignored, FALSE) >> ELSE << >>)   \* account creation
         /\ G = Q
         /\ scanned = {} /\ top = MaxTop /\ ends = NoEnds /\ ops = 0
         /\ wn \in (IF Menu \in { 0, 2 } THEN { S \in SUBSET AllCm : Cardinality(S) <= MaxNotes /\ \A n \in S : HeightOf(n) >= Birthday } ELSE {})
                    \cup (IF Menu \in { 1, 2 } THEN Menus ELSE {})
-        /\ last = [k |-> "init"] /\ okB = TRUE
+        /\ last = [k |-> "init"] /\ okB = TRUE /\ hyg = FALSE /\ apart = FALSE
 
 NewBlocks == /\ top < MaxTop /\ \E k \in { 1, 3 } : top' = MinOf(MaxTop, top + k)
              /\ ops < MaxOps /\ ops' = ops + 1
-             /\ last' = [k |-> "blocks"] /\ UNCHANGED << Q, G, scanned, ends, wn, okB >>
+             /\ last' = [k |-> "blocks"] /\ UNCHANGED << Q, G, scanned, ends, wn, okB, hyg, apart >>
 
 \* put_*_subtree_roots: the wallet learns the end heights of the shards the chain has completed, for some of the pools
 Known(P) == { r \in TrueEnds(P) : r[2] <= top }
@@ -97,7 +103,7 @@ LearnRoots == \E PS \in (SUBSET { "S", "O", "I" }) \ { {} } :
                 /\ \E P \in PS : Known(P) # ends[P]
                 /\ ends' = [P \in DOMAIN ends |-> IF P \in PS THEN Known(P) ELSE ends[P]]
                 /\ ops < MaxOps /\ ops' = ops + 1
-                /\ last' = [k |-> "root"] /\ UNCHANGED << Q, G, scanned, top, wn, okB >>
+                /\ last' = [k |-> "root"] /\ UNCHANGED << Q, G, scanned, top, wn, okB, hyg, apart >>
 
 \* quick models scan 1 or 3 blocks; MaxNotes >= 2 adds 2 and 5
 ScanLens(s) == IF MaxNotes >= 2 THEN { s + 2, s + 5 } ELSE {}
@@ -120,20 +126,54 @@ Trunc == \E h \in Birthday..(Q.hi - 2) :
           \* a reorg (the chain and the shard ends the wallet knew above h are gone) or a plain rewind
           /\ \E fork \in BOOLEAN : /\ top' = IF fork THEN MinOf(top, h) ELSE top
                                    /\ ends' = IF fork THEN [P \in DOMAIN ends |-> { r \in ends[P] : r[2] <= h }] ELSE ends
-          /\ last' = [k |-> "trunc", h |-> h] /\ okB' = TRUE /\ UNCHANGED wn
+          /\ last' = [k |-> "trunc", h |-> h] /\ okB' = TRUE /\ UNCHANGED << wn, hyg, apart >>
 
-Next == NewBlocks \/ LearnRoots \/ Tip \/ Scan \/ Trunc
+\* prune_scan_queue_below at any height, retaining nothing / OpenAdjacent and above / ChainTip and above
+PruneOp == /\ Hyg
+           /\ \E h \in Birthday..(top + 1) : \E retain \in { None, OpenAdjacent, ChainTip } :
+                /\ ops < MaxOps /\ ops' = ops + 1
+                /\ Q' = Prune(Q, h, retain) /\ G' = Prune(G, h, retain)
+                /\ last' = [k |-> "prune", h |-> h, retain |-> retain] /\ okB' = TRUE /\ hyg' = TRUE
+                /\ UNCHANGED << scanned, top, ends, wn, apart >>
+\* queue_rescans: one range or two ranges apart, Historic or FoundNote, forced
+RescanOp == /\ Hyg
+            /\ \E s \in Birthday..top : \E e \in { s + 1, s + 3 } : \E p \in { Historic, FoundNote } : \E two \in BOOLEAN :
+                 /\ e <= top + 1
+                 /\ two => e + 2 <= top + 1
+                 /\ Apply(RescanInsertions(IF two THEN << << s, e >>, << e + 1, e + 2 >> >> ELSE << << s, e >> >>, p), [k |-> "rescan"])
+                 /\ UNCHANGED << scanned, top, ends, wn >>
+
+\* An insertion APART from the stored queue: the pinned replace_queue_entries looks only at the stored entries that
+\* overlap or touch the hull of the insertions, so the heights between stay unqueued and the table stops being a
+\* partition of an interval (Replace models exactly that).  Reachable through queue_rescans with a range above the end of
+\* the queue and through a tip update below a floor that prune_scan_queue_below(_, None) raised; the ghost `apart`
+\* records it and the interval laws are claimed for the histories without it (a finding of the check, see DESIGN).
+\* (a history is followed up to its first insertion apart from the queue: from there on the pointwise Replace is no
+\* longer what the row-wise code does)
+Next == ~apart /\ (NewBlocks \/ LearnRoots \/ Tip \/ Scan \/ Trunc \/ PruneOp \/ RescanOp)
 Spec == Init /\ [][Next]_vars
-View == << Q, G, scanned, top, ends, wn, okB >>
+View == << Q, G, scanned, top, ends, wn, okB, hyg, apart >>
 
 -----------------------------------------------------------------------------------------
-FoldEq == Q = G
+FoldEq == ~apart => Q = G
 LayerB == okB
-Contiguous == \A x \in Hts : (Q.lo <= x /\ x < Q.hi) <=> Q.f[x] # None
-ScannedExact == \A x \in Hts : Q.f[x] = Scanned <=> x \in scanned
+Contiguous == ~apart => \A x \in Hts : (Q.lo <= x /\ x < Q.hi) <=> Q.f[x] # None
+\* Scanned only on scanned heights; on exactly those unless a hygiene operation dropped marks on purpose
+ScannedExact == \A x \in Hts : (Q.f[x] = Scanned => x \in scanned) /\ (~hyg /\ x \in scanned => Q.f[x] = Scanned)
 \* nothing between the birthday and the tip is lost: every such height is scanned or will be suggested
-NoneLost == \A x \in Hts : (Birthday <= x /\ x < Q.hi) => Q.f[x] \notin { None, Ignored }
+NoneLost == (~hyg /\ ~apart) => \A x \in Hts : (Birthday <= x /\ x < Q.hi) => Q.f[x] \notin { None, Ignored }
 BelowBirthday == \A x \in Hts : x < Birthday => Q.f[x] \in { None, Ignored }
+\* pruning: nothing at or above the height changes, below it retained priorities stay and everything else is Ignored or
+\* gone, and what is gone lies below everything that is left below the height
+PruneLaw ==
+    [][last'.k = "prune" =>
+         LET h == last'.h  r == last'.retain
+         IN  \A x \in Hts :
+                /\ x >= h => Q'.f[x] = Q.f[x]
+                /\ (x < h /\ Q.f[x] # None /\ Retained(Q.f[x], r)) => Q'.f[x] = Q.f[x]
+                /\ (x < h /\ Q.f[x] # None /\ ~Retained(Q.f[x], r)) => Q'.f[x] \in { Ignored, None }
+                /\ (x < h /\ Q.f[x] = None) => Q'.f[x] = None
+                /\ (Q.f[x] # None /\ Q'.f[x] = None) => \A y \in Hts : (y < h /\ Q'.f[y] # None) => y > x]_vars
 NoOpenAdjacent == \A x \in Hts : Q.f[x] # OpenAdjacent
 \* widening pool after pool (the code) is the hull of the union of the pools' extensions (the documented intent)
 ChainedIsUnion == \A s \in Birthday..top : \A e \in (s + 1)..(top + 1) :
@@ -156,5 +196,5 @@ ScanCovers ==
                           ELSE Q.f[x]]_vars
 \* a tip update never touches a scanned height and never lowers a priority
 TipMonotone ==
-    [][last'.k = "tip" => \A x \in Hts : (x \in scanned => Q'.f[x] = Scanned) /\ (Q.f[x] # None => Q'.f[x] >= Q.f[x])]_vars
+    [][last'.k = "tip" => \A x \in Hts : (Q.f[x] = Scanned => Q'.f[x] = Scanned) /\ (Q.f[x] # None => Q'.f[x] >= Q.f[x])]_vars
 =====================================================================================
